@@ -21,7 +21,6 @@ def sign(n):
 def run(ctx):
     ctx.build_go()
     T = ctx.tables()
-    ctx.regen({'AaTables.lean': tolean.aa_tables(T)})
     ctx.driver_path = ctx.driver()
     broken = ctx.audit(THEOREMS)
     rng = ctx.rng
